@@ -15,7 +15,8 @@ RULE = ("tables of 1..60 rows per call; rows generated from a known tumour copy 
         "GRCh37/GRCh38}; plus rows with integer / random log2 in [-30, 30]. Explicit grids: every (ploidy, hapX, female, "
         "genome) cell at a purity < 1, every (ploidy, hapX, naming, purity None / 1.0) cell on the pure path (there the "
         "genome option is given but must be ignored: rows with PAR coordinates keep the copies of their chromosome "
-        "name); tables made of one chromosome class only (all X, all Y, X+Y, all PAR). Doors: do_call positionally, "
+        "name); tables made of one chromosome class only (all X, all Y, X+Y, all PAR); autosome-class rows under names other than "
+        "1..22 (chrM / MT, unplaced and random contigs, alternate haplotypes, names merely containing x or y). Doors: do_call positionally, "
         "do_call by keyword with the defaults left implicit, do_call twice on the same object, the entry points "
         "absolute_clonal / absolute_dataframe (purity < 1, and None / 1.0 as `export` calls them: reference copies "
         "then follow the genome option) / absolute_pure / absolute_expect / absolute_reference / log2_ratios called "
@@ -338,6 +339,11 @@ def gen_cases(rng, tier):
                     "classes": classes, "purity": purity, "method": "clonal",
                     "par": rng.choice(["grch37", "grch38"]) if classes[0].startswith("par") else rng.choice([None, "grch38"])}),
                     share=0.5))
+    # autosome-class rows under names that are not 1..22 (chrM, unplaced contigs, alternate haplotypes, names that only
+    # contain an x / y): `ploidy` reference copies on the pure path (by name) and on the purity path (by mask) alike
+    for _ in range({"quick": 24, "thorough": 200, "search": 24}[tier]):
+        cases.append(K.other_names(rng, _table(rng, rng.choice([3, 16, 30]), force={
+            "method": "clonal", "purity": rng.choice([None, 1.0, 0.5, 0.3]), "classes": ["auto", "auto", "auto", "x", "y"]})))
     return cases
 
 
